@@ -253,11 +253,12 @@ type Node struct {
 }
 
 type projector struct {
-	w     *World
-	slabs map[int]bool // canonical ids of standalone slabs reached
-	raw   map[uint64]bool
-	nodes []*Node
-	els   []*MapEls
+	w      *World
+	slabs  map[int]bool // canonical ids of standalone slabs reached
+	raw    map[uint64]bool
+	nodes  []*Node
+	els    []*MapEls
+	onPath map[atree.SlabID]bool
 }
 
 func (w *World) newProjector() *projector {
@@ -360,6 +361,15 @@ func (p *projector) nodeOfSlab(s atree.Slab) *Node {
 }
 
 func (p *projector) nodeOfID(id atree.SlabID) *Node {
+	// a reference cycle among the slabs (a corrupted storage) must end up in the projection, not in a stack overflow of the harness
+	if p.onPath == nil {
+		p.onPath = map[atree.SlabID]bool{}
+	}
+	if p.onPath[id] {
+		return &Node{K: "cycle", ID: p.w.cid(id), E: []Elem{}, H: []Hdr{}, C: []*Node{}, Els: []*MapEls{}}
+	}
+	p.onPath[id] = true
+	defer delete(p.onPath, id)
 	s := p.w.peek(id)
 	if s == nil {
 		return &Node{K: "missing", ID: p.w.cid(id), E: []Elem{}, H: []Hdr{}, C: []*Node{}, Els: []*MapEls{}}
